@@ -30,7 +30,7 @@ def convertEntries(entries):
     return result
 
 
-def getCollectionValue(collection, what):
+def getCollectionValue(collection, what, pos=None):
     if collection.isList():
         return collection.value
     elif collection.isSet():
@@ -54,6 +54,7 @@ def getCollectionValue(collection, what):
         raise CklRuntimeError(
             ValueString("ERROR"),
             f"Cannot iterate over {collection.type()}",
+            pos,
         )
 
 
@@ -122,6 +123,10 @@ def invoke(fn, names_, args, environment, pos):
     try:
         return fn.execute(args_, environment, pos)
     except CklRuntimeError as e:
+        if e.pos is None:
+            # raised by a conversion or a helper that does not know where
+            # it was called from: the call is where it happened
+            e.pos = pos
         e.stacktrace.append(getFuncallString(fn, args_) + " " + str(pos))
         raise
     except RecursionError:
@@ -1286,7 +1291,7 @@ class NodeListComprehension:
         result = ValueList()
         localEnv = environment.newEnv()
         lst = self.listExpr.evaluate(environment)
-        values = getCollectionValue(lst, self.what)
+        values = getCollectionValue(lst, self.what, self.pos)
         for listValue in values:
             localEnv.put(self.identifier, listValue)
             if self.conditionExpr:
@@ -1364,8 +1369,8 @@ class NodeListComprehensionParallel:
         localEnv = environment.newEnv()
         list1 = self.listExpr1.evaluate(environment)
         list2 = self.listExpr2.evaluate(environment)
-        values1 = getCollectionValue(list1, self.what1)
-        values2 = getCollectionValue(list2, self.what2)
+        values1 = getCollectionValue(list1, self.what1, self.pos)
+        values2 = getCollectionValue(list2, self.what2, self.pos)
         for i in range(max(len(values1), len(values2))):
             listValue1 = values1[i] if i < len(values1) else None
             listValue2 = values2[i] if i < len(values2) else None
@@ -1454,8 +1459,8 @@ class NodeListComprehensionProduct:
         localEnv = environment.newEnv()
         list1 = self.listExpr1.evaluate(environment)
         list2 = self.listExpr2.evaluate(environment)
-        values1 = getCollectionValue(list1, self.what1)
-        values2 = getCollectionValue(list2, self.what2)
+        values1 = getCollectionValue(list1, self.what1, self.pos)
+        values2 = getCollectionValue(list2, self.what2, self.pos)
         for listValue1 in values1:
             localEnv.put(self.identifier1, listValue1)
             for listValue2 in values2:
@@ -1585,7 +1590,7 @@ class NodeMapComprehension:
         result = ValueMap()
         localEnv = environment.newEnv()
         lst = self.listExpr.evaluate(environment)
-        values = getCollectionValue(lst, self.what)
+        values = getCollectionValue(lst, self.what, self.pos)
         for listValue in values:
             localEnv.put(self.identifier, listValue)
             if self.conditionExpr:
@@ -1954,7 +1959,7 @@ class NodeSetComprehension:
         result = ValueSet()
         localEnv = environment.newEnv()
         lst = self.listExpr.evaluate(environment)
-        values = getCollectionValue(lst, self.what)
+        values = getCollectionValue(lst, self.what, self.pos)
         for listValue in values:
             localEnv.put(self.identifier, listValue)
             if self.conditionExpr:
@@ -2023,8 +2028,8 @@ class NodeSetComprehensionParallel:
         localEnv = environment.newEnv()
         list1 = self.listExpr1.evaluate(environment)
         list2 = self.listExpr2.evaluate(environment)
-        values1 = getCollectionValue(list1, self.what1)
-        values2 = getCollectionValue(list2, self.what2)
+        values1 = getCollectionValue(list1, self.what1, self.pos)
+        values2 = getCollectionValue(list2, self.what2, self.pos)
         for i in range(max(len(values1), len(values2))):
             localEnv.put(
                 self.identifier1, values1[i] if i < len(values1) else NULL
@@ -2109,8 +2114,8 @@ class NodeSetComprehensionProduct:
         localEnv = environment.newEnv()
         list1 = self.listExpr1.evaluate(environment)
         list2 = self.listExpr2.evaluate(environment)
-        values1 = getCollectionValue(list1, self.what1)
-        values2 = getCollectionValue(list2, self.what2)
+        values1 = getCollectionValue(list1, self.what1, self.pos)
+        values2 = getCollectionValue(list2, self.what2, self.pos)
         for value1 in values1:
             localEnv.put(self.identifier1, value1)
             for value2 in values2:
